@@ -785,6 +785,16 @@ func (g *gen20) twinWorkload(kind, api string, custom bool) *g20 {
 		}
 		return g.decorate(sc20(k))
 	}
+	ios := func(num string) *g20 { // an int-or-string position: whatever is written must stay as written
+		return g.decorate(sc20(r.Pick([]string{num, q(num), "http", "\"25%\"", "metrics", num, num})))
+	}
+	frac := func() *g20 { // a number position (float): fractional and integral values, plain and quoted
+		v := r.Pick([]string{"0.5", "1.5", "0.25", "10", "1e3", "-0.5", "2", "0.1", ".5"})
+		if (custom && r.Chance(60)) || r.Chance(15) {
+			v = q(v)
+		}
+		return g.decorate(sc20(v))
+	}
 	d := &g20{kind: 1}
 	d.put("apiVersion", g.decorate(sc20(api)))
 	d.put("kind", g.decorate(sc20(kind)))
@@ -841,6 +851,9 @@ func (g *gen20) twinWorkload(kind, api string, custom bool) *g20 {
 			p := &g20{kind: 1}
 			p.put("port", typed(r.Pick([]string{"80", "443"})))
 			p.put("name", str())
+			if r.Chance(80) {
+				p.put("targetPort", ios(r.Pick([]string{"8080", "80", "9000"})))
+			}
 			g.shuffle(p)
 			ps.vals = append(ps.vals, p)
 		}
@@ -849,9 +862,68 @@ func (g *gen20) twinWorkload(kind, api string, custom bool) *g20 {
 		spec.put("sessionAffinity", str())
 		g.shuffle(spec)
 		d.put("spec", g.decorate(spec))
+	case "CustomResourceDefinition":
+		// spec.versions[].schema.openAPIV3Schema.properties.*: number-typed minimum / maximum / multipleOf
+		// (fractional values), integer maxLength, boolean exclusiveMinimum, string type / description
+		props := &g20{kind: 1}
+		for _, pn := range []string{"ratio", "weight", "size"}[:1+r.Intn(3)] {
+			pr := &g20{kind: 1}
+			pr.put("type", sc20("number"))
+			pr.put("minimum", frac())
+			if r.Chance(70) {
+				pr.put("maximum", frac())
+			}
+			if r.Chance(50) {
+				pr.put("multipleOf", frac())
+			}
+			if r.Chance(40) {
+				pr.put("exclusiveMinimum", typed(r.Pick([]string{"true", "false"})))
+			}
+			if r.Chance(40) {
+				pr.put("maxLength", typed(r.Pick([]string{"10", "64"})))
+			}
+			if r.Chance(50) {
+				pr.put("description", str())
+			}
+			g.shuffle(pr)
+			props.put(pn, g.decorate(pr))
+		}
+		root := &g20{kind: 1}
+		root.put("type", sc20("object"))
+		root.put("properties", props)
+		sch := &g20{kind: 1}
+		sch.put("openAPIV3Schema", root)
+		ver := &g20{kind: 1}
+		ver.put("name", sc20("v1"))
+		ver.put("served", typed("true"))
+		ver.put("storage", typed("true"))
+		ver.put("schema", sch)
+		g.shuffle(ver)
+		ver.vals[0].head = ""
+		spec := &g20{kind: 1}
+		spec.put("group", sc20("example.com"))
+		spec.put("scope", sc20("Namespaced"))
+		names := &g20{kind: 1}
+		names.put("kind", sc20("Widget"))
+		names.put("plural", sc20("widgets"))
+		spec.put("names", names)
+		spec.put("versions", &g20{kind: 2, vals: []*g20{ver}})
+		g.shuffle(spec)
+		d.put("spec", g.decorate(spec))
 	default: // Deployment / StatefulSet
 		spec := &g20{kind: 1}
 		spec.put("replicas", typed(r.Pick([]string{"3", "1", "0"})))
+		if kind == "Deployment" && r.Chance(50) {
+			ru := &g20{kind: 1}
+			ru.put("maxSurge", ios(r.Pick([]string{"1", "2"})))
+			if r.Chance(60) {
+				ru.put("maxUnavailable", ios("0"))
+			}
+			st := &g20{kind: 1}
+			st.put("type", sc20("RollingUpdate"))
+			st.put("rollingUpdate", ru)
+			spec.put("strategy", g.decorate(st))
+		}
 		if r.Chance(70) {
 			spec.put(r.Pick([]string{"paused", "paused"}), typed(r.Pick([]string{"true", "false"})))
 		}
@@ -890,6 +962,15 @@ func (g *gen20) twinWorkload(kind, api string, custom bool) *g20 {
 			}
 			if r.Chance(40) {
 				c.put("tty", typed("true"))
+			}
+			if r.Chance(40) {
+				hg := &g20{kind: 1}
+				hg.put("path", sc20("/healthz"))
+				hg.put("port", ios(r.Pick([]string{"8080", "80"})))
+				pb := &g20{kind: 1}
+				pb.put("httpGet", hg)
+				pb.put("periodSeconds", typed("10"))
+				c.put(r.Pick([]string{"livenessProbe", "readinessProbe"}), pb)
 			}
 			g.shuffle(c)
 			c.vals[0].head = ""
@@ -953,7 +1034,7 @@ func genTwinStream(r *Rng) case20 {
 	g := &gen20{r: r}
 	g.comments = []int{0, 0, 10}[r.Intn(3)]
 	ka := [][2]string{{"Deployment", "apps/v1"}, {"StatefulSet", "apps/v1"}, {"ConfigMap", "v1"}, {"Service", "v1"},
-		{"Deployment", "apps/v1"}}[r.Intn(5)]
+		{"Deployment", "apps/v1"}, {"CustomResourceDefinition", "apiextensions.k8s.io/v1"}, {"Service", "v1"}}[r.Intn(7)]
 	n := 1 + r.Intn(4)
 	customFirst := r.Bool()
 	docs := []string{}
@@ -972,7 +1053,7 @@ func genTwinStream(r *Rng) case20 {
 }
 
 func genCase20(r *Rng) case20 {
-	if r.Chance(9) {
+	if r.Chance(11) {
 		return genTwinStream(r)
 	}
 	g := &gen20{r: r}
